@@ -1461,8 +1461,9 @@ void AsyncSim::quiesce() {
 		for (size_t ei = 0; ei < eps.size(); ei++) if (!eps[ei].silent && !(ha && ei < fresh.sub_full.size() && fresh.sub_full[ei])) all_silent = false;
 		for (auto &f : frames) if (f.bad) stream_corrupted = true; // the framing of a live stream may be lost for good
 		// an error PDU that a server had issued before the faults stopped and that reached the client only while the fresh request
-		// was outstanding fails it legitimately
-		if (!fresh.att.empty()) for (auto &f : frames) if (f.info.has_error && f.arrive_seq > fresh.att.back().accepted_seq) stream_corrupted = true;
+		// was outstanding fails it legitimately (reached: arrived at the socket, or was taken from the socket by the client - an
+		// error PDU bears no request id, so one that sat unread in the socket buffer when the request was added is applied to it)
+		if (!fresh.att.empty()) for (auto &f : frames) if (f.info.has_error && (f.arrive_seq > fresh.att.back().accepted_seq || f.read_seq == 0 || f.read_seq > fresh.att.back().accepted_seq)) { stream_corrupted = true; K.count("probe.fresh_request_met_late_error_pdu"); }
 		// ... also when a frame that claims more bytes than the server ever sent is still open: everything that follows is swallowed into it
 		for (auto &e : eps) if (!e.http) for (auto &cp : N.conns) if (cp->ep == e.net_ep && !cp->client_closed) {
 			auto it = e.conn_parsed.find(cp->idx);
